@@ -204,9 +204,9 @@ func colorMain(args []string) error {
 		}
 		y := rng.Intn(1 << 16)
 		emit(trace.Ev{"ev": "Img16", "r": r, "g": g, "b": b, "y": y,
-			"rgba64": int(tcell.FromImageColor(color.RGBA64{R: uint16(r), G: uint16(g), B: uint16(b), A: 0xffff}).Hex()),
+			"rgba64":  int(tcell.FromImageColor(color.RGBA64{R: uint16(r), G: uint16(g), B: uint16(b), A: 0xffff}).Hex()),
 			"nrgba64": int(tcell.FromImageColor(color.NRGBA64{R: uint16(r), G: uint16(g), B: uint16(b), A: 0xffff}).Hex()),
-			"gray16": int(tcell.FromImageColor(color.Gray16{Y: uint16(y)}).Hex())})
+			"gray16":  int(tcell.FromImageColor(color.Gray16{Y: uint16(y)}).Hex())})
 	}
 	_ = tcx.Color
 	if err := tw.Close(); err != nil {
